@@ -2,6 +2,7 @@ import operator
 import warnings
 from datetime import datetime
 from collections.abc import Iterable
+from enum import Enum
 from collections.abc import Iterator
 from collections.abc import Mapping
 
@@ -863,7 +864,7 @@ class Table(Vector):
 		if isinstance(value, Iterator):
 			value = list(value)
 		elif len(target_indices) > 1 and isinstance(value, Iterable) \
-				and not isinstance(value, (Vector, list, tuple, str, bytes, bytearray, Mapping, int, float, complex)):
+				and not isinstance(value, (Vector, list, tuple, str, bytes, bytearray, Mapping, int, float, complex, Enum)):
 			# (several target columns: any other sequence - a deque, dict.values() - is the list of
 			# its items, one per column, like a list, a tuple or a generator of them)
 			value = list(value)
@@ -891,7 +892,7 @@ class Table(Vector):
 		# t[0:5, 'A'] = 10
 		# (a number is one cell even where its class is iterable: since Python 3.11 an enum.Flag member
 		# iterates over its bits, and an IntFlag is an int like any other element of an <int> column)
-		if not isinstance(value, Iterable) or isinstance(value, (str, bytes, bytearray, int, float, complex)):
+		if not isinstance(value, Iterable) or isinstance(value, (str, bytes, bytearray, int, float, complex, Enum)):
 			for col_idx in target_indices:
 				self._underlying[col_idx][row_spec] = value
 			return
@@ -989,7 +990,7 @@ class Table(Vector):
 			if len(self.cols()) != len(other.cols()):
 				raise ValueError(f"Column count mismatch: {len(self.cols())} != {len(other.cols())}")
 			return Vector(tuple(op(x, y) for x, y in zip(self.cols(), other.cols(), strict=True)))
-		if isinstance(other, Iterable) and not isinstance(other, (str, bytes, bytearray)):
+		if isinstance(other, Iterable) and not isinstance(other, (str, bytes, bytearray, int, float, complex, Enum)):
 			# Raise mismatched row counts
 			if len(self) != len(other):
 				raise ValueError(f"Row count mismatch: {len(self)} != {len(other)}")
@@ -1016,7 +1017,7 @@ class Table(Vector):
 				# Convert to Vector if needed
 				if isinstance(values, Vector):
 					col = values.copy()  # Copy to prevent aliasing
-				elif isinstance(values, Iterable) and not isinstance(values, (str, bytes, bytearray)):
+				elif isinstance(values, Iterable) and not isinstance(values, (str, bytes, bytearray, int, float, complex, Enum)):
 					col = Vector(values)
 				else:
 					# Reject scalars - user must be explicit
@@ -1051,7 +1052,7 @@ class Table(Vector):
 			# Adding a column to a table - tables can have mixed-type columns
 			return Vector(self.cols() + (other,),
 				dtype=self._dtype)
-		if isinstance(other, Iterable) and not isinstance(other, (str, bytes, bytearray)):
+		if isinstance(other, Iterable) and not isinstance(other, (str, bytes, bytearray, int, float, complex, Enum)):
 			# Convert iterable to Vector and add as column (let Vector infer dtype)
 			return Vector(self.cols() + (Vector(other),),
 				dtype=self._dtype)
@@ -1068,7 +1069,7 @@ class Table(Vector):
 			if len(self.cols()) != len(other.cols()):
 				raise ValueError(f"Column count mismatch: {len(self.cols())} != {len(other.cols())}")
 			return self._named_like_self(tuple(x << y for x, y in zip(self.cols(), other.cols(), strict=True)))
-		if not isinstance(other, Iterable) or isinstance(other, (str, bytes, bytearray, Mapping)):
+		if not isinstance(other, Iterable) or isinstance(other, (str, bytes, bytearray, int, float, complex, Enum, Mapping)):
 			# (a string is one cell, a mapping has no column order: neither is a row of cells - zip would
 			# spread the characters / the KEYS over the columns)
 			raise SerifTypeError("Cannot append a scalar or a mapping to a table; give one item (or sequence of cells) per column.")
@@ -1080,7 +1081,7 @@ class Table(Vector):
 		""" other << table (other is not a Vector): the items of other, one per column, come before the table's rows
 		(without this, Vector.__rlshift__ would splice the column vectors themselves into a flat vector)
 		"""
-		if not isinstance(other, Iterable) or isinstance(other, (str, bytes, bytearray, Mapping)):
+		if not isinstance(other, Iterable) or isinstance(other, (str, bytes, bytearray, int, float, complex, Enum, Mapping)):
 			raise SerifTypeError("Cannot prepend a scalar or a mapping to a table; give one item (or sequence of cells) per column.")
 		items = list(other)
 		if len(self.cols()) != len(items):
